@@ -48,6 +48,73 @@ theorem erase_nukeAfter (fuel : Nat) (rest acc : GoStr) :
     rw [← hc, h, hd]
     simp
 
+theorem dropWhile_ws_append (ws t : GoStr) (hws : ∀ b ∈ ws, isWS b = true)
+    (ht : ∀ b r, t = b :: r → isWS b = false) : (ws ++ t).dropWhile isWS = t := by
+  induction ws with
+  | nil =>
+    cases t with
+    | nil => rfl
+    | cons b r => simp [ht b r rfl]
+  | cons w ws ih =>
+    have : isWS w = true := hws w (by simp)
+    simp only [List.cons_append, List.dropWhile, this]
+    exact ih (fun b hb => hws b (by simp [hb]))
+
+/-- **`>` / `<` before a tag**: the marker and all white space immediately before it disappear. -/
+theorem erase_nukeBefore (fuel : Nat) (ws rest acc : GoStr) (hws : ∀ b ∈ ws, isWS b = true) :
+    eraseAux (fuel+1) (ws ++ (Gen.NukeBefore ++ rest)) acc = eraseAux fuel rest acc := by
+  have hd : (ws ++ (Gen.NukeBefore ++ rest)).dropWhile isWS = Gen.NukeBefore ++ rest :=
+    dropWhile_ws_append ws _ hws (by
+      intro b r h
+      have : b = 62 := by simp [Gen.NukeBefore] at h; exact h.1.symm
+      subst this; decide)
+  have hna : Gen.NukeAfter.isPrefixOf (ws ++ (Gen.NukeBefore ++ rest)) = false := by
+    cases ws with
+    | nil => simp [Gen.NukeAfter, Gen.NukeBefore, List.isPrefixOf]
+    | cons w ws =>
+      have hw : isWS w = true := hws w (by simp)
+      have : w ≠ 126 := by intro h; subst h; exact absurd hw (by decide)
+      simp [Gen.NukeAfter, List.isPrefixOf]
+      intro h; exact absurd h.symm this
+  cases hc : ws ++ (Gen.NukeBefore ++ rest) with
+  | nil => cases ws <;> simp [Gen.NukeBefore] at hc
+  | cons b r =>
+    rw [← hc]
+    simp only [eraseAux]
+    rw [hc]
+    simp only []
+    rw [← hc, hna, hd]
+    simp
+
+theorem eraseAux_sublist (fuel : Nat) (s acc : GoStr) :
+    ∃ r, eraseAux fuel s acc = acc.reverse ++ r ∧ r.Sublist s := by
+  induction fuel generalizing s acc with
+  | zero => exact ⟨[], by simp [eraseAux], List.nil_sublist _⟩
+  | succ n ih =>
+    cases s with
+    | nil => exact ⟨[], by simp [eraseAux], List.nil_sublist _⟩
+    | cons b rest =>
+      simp only [eraseAux]
+      split
+      · obtain ⟨r, h1, h2⟩ := ih (((b :: rest).drop Gen.NukeAfter.length).dropWhile isWS) acc
+        exact ⟨r, h1, h2.trans ((List.dropWhile_sublist _).trans (List.drop_sublist _ _))⟩
+      · split
+        · obtain ⟨r, h1, h2⟩ := ih (((b :: rest).dropWhile isWS).drop Gen.NukeBefore.length) acc
+          exact ⟨r, h1, h2.trans ((List.drop_sublist _ _).trans (List.dropWhile_sublist _))⟩
+        · obtain ⟨r, h1, h2⟩ := ih rest (b :: acc)
+          exact ⟨b :: r, by simp [h1], h2.cons_cons b⟩
+
+/-- **The eraser only removes** — whatever the buffer holds (markers in content included), the bytes
+written out are bytes of the buffer, in their order: nothing is added, nothing is moved. -/
+theorem erase_sublist (s : GoStr) : (erase s).Sublist s := by
+  obtain ⟨r, h1, h2⟩ := eraseAux_sublist (s.length + 1) s []
+  unfold erase; rw [h1]; simpa using h2
+
+theorem erase_length_le (s : GoStr) : (erase s).length ≤ s.length := (erase_sublist s).length_le
+
+/-- the hypotheses of `erase_nukeBefore` are met by a real buffer: blank, line break, marker, `<p>` -/
+example : erase ([97, 32, 10] ++ (Gen.NukeBefore ++ [60, 112, 62])) = [97, 60, 112, 62] := by decide +kernel
+
 /-- the constants the eraser is built from, as extracted from runtime.go on this run -/
 theorem extracted_markers :
     Gen.NukeAfter = [126, 226, 152, 162, 60] ∧ Gen.NukeBefore = [62, 226, 152, 162, 126] ∧
@@ -80,7 +147,8 @@ theorem void_element_layout (fuel : Nat) (c : Ctx) (e : Elem) (kids : List Node)
   simp [execNode, hs, hno, hobj, hid, hcl, hat, hcmd, bind, Except.bind, pure, Except.pure, List.foldlM]
 
 -- PLANNED: SentinelFree t env → erase (execOut t env) = layout t env (structural layout function)
--- PLANNED: ¬ containsMarker (erase (execOut t env)) under SentinelFree
+-- PLANNED: ¬ containsMarker (erase (execOut t env)) under SentinelFree (false without it: the eraser can
+--          bring the halves of a marker together, `erase_sublist` is what holds for every buffer)
 -- KNOWN (recorded finding): content containing the marker sequences (static or dynamic) is altered
 
 end GL.C14
